@@ -112,6 +112,8 @@ var (
 	rFormat    = Rule{"R28-format", ruleFormatConst}
 	rLitSrc    = Rule{"R29-literal-source", ruleLiteralSource}
 	rTermCall  = Rule{"R19b-terminate", ruleTerminateCallers}
+	rFanH      = Rule{"R8b-fanout(hsms)", ruleFanout("hsms")}
+	rFanS      = Rule{"R8b-fanout(sml)", ruleFanout("sml")}
 )
 
 func init() {
@@ -141,12 +143,12 @@ func init() {
 		NotDecided:  "that strconv's reading of a literal is the SML reading (trusted) and the lexer's number scanning beyond the terminator check are not decided.",
 		Assumptions: stdAssumptions})
 	register(&Property{ID: "C06", Title: "SML parser is total and all-or-nothing",
-		Rules:       []Rule{rContS, rAllocS, rPreS, rRecS, rEmit, rErrSupp, only(rImmut, "I5:go"), rTermCall, only(rLexClass, "comment-return"), only(rFormat, "sml.")},
-		Explanation: "Every refusal (explicit panic or failing type assertion) reachable from sml.Parse lies under a deferred recover on every call path (R7); no size taken from the input text sizes an allocation unchecked (R6, R6c); each lexer state sends at most as many tokens per invocation as the channel holds, runs only when the buffer is empty, and closes the channel after error/EOF (R19); messages are returned only when no error was reported and diagnostics have the documented form (R25); no goroutine is started (I5); recursion depth (R8) is an open, recorded finding. Only errorf and lexEOF, which send a positioned token first, end the token stream, and the comment state returns to the interrupted state or lexEOF (R19b, R10), so a diagnostic always carries a token position; no format string is computed from data (R28).",
-		NotDecided:  "lexer termination (progress per state invocation), run-time index/slice panics in the lexer, time complexity and that reported positions lie inside the input are not decided.",
+		Rules:       []Rule{rContS, rAllocS, rPreS, rRecS, rFanS, rEmit, rErrSupp, only(rImmut, "I5:go"), rTermCall, only(rLexClass, "comment-return", "token-positions"), only(rFormat, "sml.")},
+		Explanation: "Every refusal (explicit panic or failing type assertion) reachable from sml.Parse lies under a deferred recover on every call path (R7); no size taken from the input text sizes an allocation unchecked (R6, R6c); each lexer state sends at most as many tokens per invocation as the channel holds, runs only when the buffer is empty, and closes the channel after error/EOF (R19); messages are returned only when no error was reported and diagnostics have the documented form (R25); no goroutine is started (I5); recursion depth (R8) is an open, recorded finding. Only errorf and lexEOF, which send a positioned token first, end the token stream, and the comment state returns to the interrupted state or lexEOF (R19b, R10), so a diagnostic always carries a token position, and that position is the place of the token in the text: the lexer evaluated on texts with line breaks inside size declarations, CRLF, tabs, comments and multi-byte characters gives every token the line and column counted from the text (R10 token-positions); no format string is computed from data (R28).",
+		NotDecided:  "lexer termination (progress per state invocation), run-time index/slice panics in the lexer, time complexity, and positions beyond the evaluated texts are not decided.",
 		Assumptions: stdAssumptions})
 	register(&Property{ID: "C07", Title: "HSMS decoder is total, memory linear in the input",
-		Rules:       []Rule{rContH, rAllocH, rPreH, rRecH, only(rImmut, "I5:go", "hsms.Parse", "(*hsms.parser)")},
+		Rules:       []Rule{rContH, rAllocH, rPreH, rRecH, rFanH, only(rImmut, "I5:go", "hsms.Parse", "(*hsms.parser)")},
 		Explanation: "hsms.Parse defers, in its entry block, a closure that itself calls recover and sets ok=false, and every may-panic site below it is under that recover (R7); every buffer sized from a declared length is preceded, on every path, by a comparison of that length with the bytes present (R6, interprocedural through the numeric handlers); no input-sized buffer is allocated before a recursive call (R6c) and no string is built by concatenation in a loop (R6b) — the two ways allocation becomes quadratic; the input slice is never written (R12-I3); recursion depth (R8) is an open, recorded finding.",
 		NotDecided:  "the constant of the linear bound and allocation inside the ast factories beyond 'sized by len(values)' are not decided.",
 		Assumptions: stdAssumptions})
@@ -181,8 +183,8 @@ func init() {
 		NotDecided:  "behaviour of the generic constructor for a header that is not 10 bytes long is outside the statement.",
 		Assumptions: stdAssumptions})
 	register(&Property{ID: "C15", Title: "Declared item sizes are enforced",
-		Rules:       []Rule{rSizes, only(rAllocSite, "ASCIINode")},
-		Explanation: "The three guards involved only compare integers, so their denotation is decided exactly on the weak orderings of (size, lower, upper, -1): the parser's size check reports an error exactly when not (lower <= size and (upper == -1 or size <= upper)) (512 tuples), ASCIINode.FillVariables reaches NewASCIINode exactly when min <= len and (max == -1 or len <= max), and ASCIINode.checkRep accepts exactly min >= 0, max >= -1, min <= max unless max == -1; the bounds travel unpermuted from the size token through parseDataItemSize, parseDataItem, parseASCII and NewASCIINodeVariable into the fields, FillInStringLength and the printer's three size forms; the size check is reached for all 14 item types with item.Size() and the size token; [n] yields (n, n) and [a..b] yields (a, b). ASCII nodes are allocated only by their factories, so bounds cannot be dropped on the way (R13b).",
+		Rules:       []Rule{rSizes, only(rAllocSite, "ASCIINode"), only(rLexClass, "token-positions")},
+		Explanation: "The three guards involved only compare integers, so their denotation is decided exactly on the weak orderings of (size, lower, upper, -1): the parser's size check reports an error exactly when not (lower <= size and (upper == -1 or size <= upper)) (512 tuples), ASCIINode.FillVariables reaches NewASCIINode exactly when min <= len and (max == -1 or len <= max), and ASCIINode.checkRep accepts exactly min >= 0, max >= -1, min <= max unless max == -1; the bounds travel unpermuted from the size token through parseDataItemSize, parseDataItem, parseASCII and NewASCIINodeVariable into the fields, FillInStringLength and the printer's three size forms; the size check is reached for all 14 item types with item.Size() and the size token; [n] yields (n, n) and [a..b] yields (a, b). ASCII nodes are allocated only by their factories, so bounds cannot be dropped on the way (R13b). The error is reported at the declaration only if the size token carries the position of its place in the text, also after an earlier size declaration that spans lines: the lexer evaluated on such texts gives every token the line and column counted from the text (R10 token-positions).",
 		NotDecided:  "the size scanner in the lexer and what Size() counts for each node are not decided.",
 		Assumptions: stdAssumptions})
 	register(&Property{ID: "C16", Title: "Variable listing, encodability, size",
